@@ -63,7 +63,7 @@ def script_strategy():
 def observe_strategy(procs):
     def s(tier):
         return st.fixed_dictionaries({
-            "prog": program_strategy(tier=tier, procs=procs),
+            "prog": program_strategy(tier=tier, procs=procs, stash=True),
             "end": st.sampled_from([None, None, 1, 2, 3, 4, 6, 60]),
             "endj": st.sampled_from([0, 0, 0, 1, -1]),
             "obs": script_strategy(),
@@ -381,7 +381,7 @@ def execute_reset(case):
     return r
 
 
-RULE = ("C01/C02 program generator x observation script {control attached, in-memory trace recorder, event tracing, hooks, pause "
+RULE = ("C01/C02 program generator (plus handlers that hold received Event objects and re-emit them later, as queues do with payloads) x observation script {control attached, in-memory trace recorder, event tracing, hooks, pause "
         "requests issued from inside an event hook at generated event indices, initial breakpoints, and a list of actions taken at "
         "successive pauses: step(1..7) | resume | add breakpoint(Time/EventCount/EventType/Condition, one-shot or persistent) | remove | "
         "clear}; non-trivial = the run was paused at least once and the program has at least two processed events on one timestamp")
